@@ -109,36 +109,53 @@ def check_range_fn(ctx, qn):
     """start(i) = i*p; for i != n-1: end(i) + 1 = start(i+1); last part open or T-1."""
     f = ctx.func(qn)
     p, i, n = f.bound_params()[0:3]
-    starts = [v for st, v in q.local_defs(f, 'start_range') if isinstance(v, ast.AST)]
+    # the returned f-string 'bytes={S}-{E}' names the start and end locals
+    ret = [x for x in own_nodes(f.node) if isinstance(x, ast.Return) and x.value is not None]
+    fs = q.resolve_local(f, ret[0].value) if len(ret) == 1 else None
+    S = E = None
+    if isinstance(fs, ast.JoinedStr):
+        parts = [v for v in fs.values]
+        fv = [v.value for v in parts if isinstance(v, ast.FormattedValue)]
+        consts = [v.value for v in parts if isinstance(v, ast.Constant)]
+        if len(fv) == 2 and all(isinstance(x, ast.Name) for x in fv) and consts[:2] == ['bytes=', '-'] and len(consts) == 2:
+            S, E = fv[0].id, fv[1].id
+    ctx.ob(f, "returns f'bytes={start}-{end}'", S is not None, f'range header format changed: {norm(fs) if fs is not None else None}')
+    if S is None:
+        return
+    starts = [v for st, v in q.local_defs(f, S) if isinstance(v, ast.AST)]
     ok = len(starts) == 1 and equal(starts[0], f'{i} * {p}')
-    ctx.ob(f, f'start_range = {i} * {p}', ok, f'range start must be part_index * part_size, found {[norm(s) for s in starts]}')
-    ends = [(st, v) for st, v in q.local_defs(f, 'end_range') if isinstance(v, ast.AST)]
+    ctx.ob(f, f'range start = {i} * {p}', ok, f'range start must be part_index * part_size, found {[norm(s) for s in starts]}')
+    ends = [(st, v) for st, v in q.local_defs(f, E) if isinstance(v, ast.AST)]
     inner = [(st, v) for st, v in ends if not q.guards_imply(q.guards(st), f'{i} == {n} - 1')]
     last = [(st, v) for st, v in ends if q.guards_imply(q.guards(st), f'{i} == {n} - 1')]
     ok = len(inner) == 1
     if ok:
         try:
-            e = poly(inner[0][1], {'start_range': starts[0]} if starts else {})
+            e = poly(inner[0][1], {S: starts[0]} if starts else {})
             nxt = poly(f'({i} + 1) * {p}')
             ok = poly_add1(e) == nxt
         except NotPoly:
             ok = False
-    ctx.ob(f, 'end_range + 1 == start of the next part (for every part but the last)', ok,
+    ctx.ob(f, 'range end + 1 == start of the next part (for every part but the last)', ok,
            f'consecutive ranges must neither overlap nor leave a gap: end = {norm(inner[0][1]) if inner else None}')
-    okl = bool(last) and all(norm(v) in ("''", 'str(total_size - 1)') for st, v in last)
+    okl = bool(last) and all(norm(v) == "''" or (isinstance(v, ast.Call) and norm(v.func) == 'str') for st, v in last)
     if len(f.bound_params()) > 3:
         T = f.bound_params()[3]
-        okl = okl and any(norm(v) == f'str({T} - 1)' and q.guards_imply(q.guards(st), f'{T} is not None') for st, v in last)
+        okl = okl and any(norm(v) == f'str({T} - 1)' and q.guards_imply(q.guards(st), f'{T} is not None') for st, v in last) \
+            and all(norm(v) in ("''", f'str({T} - 1)') for st, v in last)
+    else:
+        okl = okl and all(norm(v) == "''" for st, v in last)
     ctx.ob(f, 'last part is open-ended or ends at total_size - 1', okl, f'the last range must reach the last byte: {[norm(v) for _, v in last]}')
-    rp = [v for st, v in q.local_defs(f, 'range_param') if isinstance(v, ast.AST)]
-    ok = len(rp) == 1 and norm(rp[0]) == "f'bytes={start_range}-{end_range}'"
-    ctx.ob(f, "range_param = f'bytes={start_range}-{end_range}'", ok, f'found {[norm(v) for v in rp]}')
 
 
 def poly_add1(p):
     out = dict(p)
     out[()] = out.get((), 0) + 1
     return {k: v for k, v in out.items() if v}
+
+
+def _np_names(f):
+    return q.names_defined_by(f, lambda v: 'ceil(' in norm(v) or 'calculate_num_parts(' in norm(v) or 'floor(' in norm(v) or '//' in norm(v))
 
 
 def _num_parts_expr_ok(e, size_txt, p_txt):
@@ -166,27 +183,34 @@ def tiling_identities(ctx):
     # legacy download
     f = ctx.func('__init__.MultipartDownloader._download_range')
     cs = [c for c in own_calls(f.node) if (dotted(c.func) or '').endswith('_calculate_range_param')]
-    cur = [v for st, v in q.local_defs(f, 'current_index') if isinstance(st, ast.Assign) and isinstance(v, ast.AST)]
+    cursors = [x.target.id for x in own_nodes(f.node) if isinstance(x, ast.AugAssign) and isinstance(x.target, ast.Name) and norm(x.value).startswith('len(')]
+    cur = [v for c_ in cursors[:1] for st, v in q.local_defs(f, c_) if isinstance(st, ast.Assign) and isinstance(v, ast.AST)]
     ok = len(cs) == 1 and bool(cur) and all(equal(v, f'{norm(cs[0].args[1])} * {norm(cs[0].args[0])}') for v in cur)
     ctx.ob(f, 'current_index = part_index * part_size (start of the requested range)', ok, f'found {[norm(v) for v in cur]} vs range({", ".join(norm(a) for a in cs[0].args) if cs else ""})')
     f = ctx.func('__init__.MultipartDownloader._download_file_as_future')
-    npd = [v for st, v in q.local_defs(f, 'num_parts') if isinstance(v, ast.AST)]
-    ctx.ob(f, 'num_parts = ceil(object_size / float(part_size))', len(npd) == 1 and _num_parts_expr_ok(npd[0], 'object_size', 'part_size'), f'{[norm(v) for v in npd]}')
-    loops = [c for c in own_calls(f.node) if isinstance(c.func, ast.Name) and c.func.id == 'range' and len(c.args) == 1 and norm(c.args[0]) == 'num_parts']
+    npn = _np_names(f)
+    ps = q.names_defined_by(f, lambda v: norm(v).endswith('multipart_chunksize'))
+    npd = [v for nm in npn[:1] for st, v in q.local_defs(f, nm) if isinstance(v, ast.AST)]
+    ctx.ob(f, 'num_parts = ceil(object_size / float(part_size))', len(npd) == 1 and bool(ps) and _num_parts_expr_ok(npd[0], 'object_size', ps[0]), f'{[norm(v) for v in npd]}')
+    loops = [c for c in own_calls(f.node) if isinstance(c.func, ast.Name) and c.func.id == 'range' and len(c.args) == 1 and npn and norm(c.args[0]) == npn[0]]
     ctx.ob(f, 'parts 0..num_parts-1 are all requested', bool(loops), 'every part index must be downloaded')
     # uploads (manager)
     f = ctx.func('upload.UploadFilenameInputManager.yield_upload_part_bodies')
-    sb = [v for st, v in q.local_defs(f, 'start_byte') if isinstance(v, ast.AST)]
     chunk = f.params[2]
-    ok = len(sb) == 1 and equal(sb[0], f'{chunk} * (part_number - 1)')
-    ctx.ob(f, f'start_byte = {chunk} * (part_number - 1)', ok, f'found {[norm(v) for v in sb]}')
     cs = [c for c in own_calls(f.node) if (dotted(c.func) or '').endswith('_get_upload_part_fileobj_with_full_size')]
-    ok = len(cs) == 1 and norm(kwarg(cs[0], 'start_byte')) == 'start_byte' and norm(kwarg(cs[0], 'part_size')) == chunk
+    loopv = [norm(l.target) for l in own_nodes(f.node) if isinstance(l, ast.For) and 'range(1,' in norm(l.iter)]
+    sbe = q.resolve_local(f, kwarg(cs[0], 'start_byte')) if len(cs) == 1 and kwarg(cs[0], 'start_byte') is not None else None
+    ok = sbe is not None and bool(loopv) and equal(sbe, f'{chunk} * ({loopv[0]} - 1)')
+    ctx.ob(f, f'start_byte = {chunk} * (part_number - 1)', ok, f'found {norm(sbe)}')
+    ok = len(cs) == 1 and sbe is not None and norm(kwarg(cs[0], 'part_size')) == chunk
     ctx.ob(f, f'part handle opened at start_byte with part_size={chunk}', ok, 'the part body must start at its own offset')
     cr = [c for c in own_calls(f.node) if (dotted(c.func) or '').endswith('open_file_chunk_reader_from_fileobj')]
     ctx.ob(f, f'chunk reader limited to chunk_size={chunk}', len(cr) == 1 and norm(kwarg(cr[0], 'chunk_size')) == chunk, 'each part body must be limited to the part size')
     npc = [c for c in own_calls(f.node) if (dotted(c.func) or '').endswith('_get_num_parts')]
     ctx.ob(f, f'num_parts = _get_num_parts(transfer_future, {chunk})', len(npc) == 1 and norm(npc[0].args[1]) == chunk, 'the part count must use the same chunk size as the offsets')
+    rng = [l for l in own_nodes(f.node) if isinstance(l, ast.For) and 'range(1,' in norm(l.iter)]
+    ok = len(rng) == 1 and len(npc) == 1 and isinstance(npc[0]._parent, ast.Assign) and norm(rng[0].iter) == f'range(1, {norm(npc[0]._parent.targets[0])} + 1)'
+    ctx.ob(f, 'for part_number in range(1, num_parts + 1)', ok, 'every part 1..n must be produced')
     g = ctx.func('upload.UploadFilenameInputManager._get_num_parts')
     rets = [x for x in own_nodes(g.node) if isinstance(x, ast.Return)]
     ctx.ob(g, 'int(math.ceil(size / float(part_size)))', len(rets) == 1 and _num_parts_expr_ok(rets[0].value, 'transfer_future.meta.size', 'part_size'), f'{norm(rets[0].value) if rets else None}')
@@ -198,19 +222,28 @@ def tiling_identities(ctx):
     ctx.ob(o, 'seek(self._start_byte) when opening', len(sk) == 1 and norm(sk[0].args[0]) == 'self._start_byte', 'the deferred handle must start at its start byte')
     # legacy upload
     f = ctx.func('__init__.MultipartUploader._upload_one_part')
-    cs = [c for c in own_calls(f.node) if norm(c.func) == 'open_chunk_reader']
+    cs = [c for c, r in q.calls_in(ctx, f) if r.kind == 'package' and any(t.name == 'open_file_chunk_reader' for t in r.targets)]
     ok = len(cs) == 1 and len(cs[0].args) >= 3 and equal(cs[0].args[1], 'part_size * (part_number - 1)') and norm(cs[0].args[2]) == 'part_size'
     ctx.ob(f, 'open_chunk_reader(filename, part_size * (part_number - 1), part_size, ...)', ok, 'legacy part k must cover [c(k-1), ck)')
     f = ctx.func('__init__.MultipartUploader._upload_parts')
-    npd = [v for st, v in q.local_defs(f, 'num_parts') if isinstance(v, ast.AST)]
-    ctx.ob(f, 'num_parts = ceil(file size / float(part_size))', len(npd) == 1 and _num_parts_expr_ok(npd[0], 'self._os.get_file_size(filename)', 'part_size'), f'{[norm(v) for v in npd]}')
+    npn = _np_names(f)
+    ps = q.names_defined_by(f, lambda v: norm(v).endswith('multipart_chunksize'))
+    npd = [v for nm in npn[:1] for st, v in q.local_defs(f, nm) if isinstance(v, ast.AST)]
+    ctx.ob(f, 'num_parts = ceil(file size / float(part_size))', len(npd) == 1 and bool(ps) and _num_parts_expr_ok(npd[0], 'self._os.get_file_size(filename)', ps[0]), f'{[norm(v) for v in npd]}')
+    part = [c for c in own_calls(f.node) if (dotted(c.func) or '').endswith('partial') and c.args and norm(c.args[0]) == 'self._upload_one_part']
+    ctx.ob(f, 'the same part size is bound into _upload_one_part', len(part) == 1 and bool(ps) and len(part[0].args) > 5 and norm(part[0].args[5]) == ps[0], 'part size of the bodies and of the count differ')
     # copies
     f = ctx.func('copies.CopySubmissionTask._submit_multipart_request')
-    npd = [v for st, v in q.local_defs(f, 'num_parts') if isinstance(v, ast.AST)]
-    ctx.ob(f, 'num_parts = ceil(size / float(part_size))', len(npd) == 1 and _num_parts_expr_ok(npd[0], 'transfer_future.meta.size', 'part_size'), f'{[norm(v) for v in npd]}')
+    npn = _np_names(f)
+    adj = [c for c in own_calls(f.node) if (dotted(c.func) or '').endswith('adjust_chunksize')]
+    psn = norm(adj[0]._parent.targets[0]) if adj and isinstance(adj[0]._parent, ast.Assign) else None
+    npd = [v for nm in npn[:1] for st, v in q.local_defs(f, nm) if isinstance(v, ast.AST)]
+    ctx.ob(f, 'num_parts = ceil(size / float(part_size))', len(npd) == 1 and psn is not None and _num_parts_expr_ok(npd[0], 'transfer_future.meta.size', psn), f'{[norm(v) for v in npd]}')
+    loopv = [norm(l.target) for l in own_nodes(f.node) if isinstance(l, ast.For) and npn and norm(l.iter) == f'range(1, {npn[0]} + 1)']
+    ctx.ob(f, 'for part_number in range(1, num_parts + 1)', len(loopv) == 1, 'every part 1..n must be copied')
     for fn in ('calculate_range_parameter', '_get_transfer_size'):
         cs = [c for c in own_calls(f.node) if (dotted(c.func) or '').split('.')[-1] == fn]
-        ok = len(cs) == 1 and [norm(a) for a in cs[0].args] == ['part_size', 'part_number - 1', 'num_parts', 'transfer_future.meta.size']
+        ok = len(cs) == 1 and bool(loopv) and bool(npn) and [norm(a) for a in cs[0].args] == [psn, f'{loopv[0]} - 1', npn[0], 'transfer_future.meta.size']
         ctx.ob(f, f'{fn}(part_size, part_number - 1, num_parts, size)', ok, f'found {[norm(a) for a in cs[0].args] if cs else None}')
     g = ctx.func('copies.CopySubmissionTask._get_transfer_size')
     ps, pi, n, T = g.bound_params()
@@ -293,19 +326,26 @@ def limits_are_s3s_and_applied(ctx):
     ctx.ob(c, 'clamp: > max -> max; < min -> min; else unchanged', shape == want, f'{shape}')
     m = ctx.func('utils.ChunksizeAdjuster._adjust_for_max_parts')
     loops = [x for x in own_nodes(m.node) if isinstance(x, ast.While)]
-    ok = len(loops) == 1 and norm(loops[0].test) == 'num_parts > self.max_parts' and \
-        any(isinstance(x, ast.AugAssign) and isinstance(x.op, ast.Mult) and norm(x.value) == '2' and norm(x.target) == 'chunksize' for x in loops[0].body) and \
-        any(isinstance(x, ast.Assign) and norm(x.targets[0]) == 'num_parts' and _num_parts_expr_ok(x.value, 'file_size', 'chunksize') for x in loops[0].body)
     rets = [norm(x.value) for x in own_nodes(m.node) if isinstance(x, ast.Return)]
-    ctx.ob(m, 'while num_parts > max_parts: chunksize *= 2; recompute num_parts; return chunksize', ok and rets == ['chunksize'], f'loop {norm(loops[0].test) if loops else None}, returns {rets}')
+    cv = rets[0] if len(rets) == 1 else None  # the chunk size being adjusted is what is returned
+    npn = _np_names(m)
+    nv = npn[0] if npn else None
+    ok = len(loops) == 1 and cv is not None and nv is not None and norm(loops[0].test) == f'{nv} > self.max_parts' and \
+        any(isinstance(x, ast.AugAssign) and isinstance(x.op, ast.Mult) and norm(x.value) == '2' and norm(x.target) == cv for x in loops[0].body) and \
+        any(isinstance(x, ast.Assign) and norm(x.targets[0]) == nv and _num_parts_expr_ok(x.value, m.params[2], cv) for x in loops[0].body) and \
+        any(_num_parts_expr_ok(v, m.params[2], cv) for st, v in q.local_defs(m, nv) if isinstance(v, ast.AST) and q.in_loop(st) is None) and \
+        any(norm(v) == m.params[1] for st, v in q.local_defs(m, cv) if isinstance(v, ast.AST))
+    ctx.ob(m, 'while num_parts > max_parts: chunksize *= 2; recompute num_parts; return chunksize', ok, f'loop {norm(loops[0].test) if loops else None}, returns {rets}')
     # use in the two submitters
     for qn, consumers in (('upload.UploadSubmissionTask._submit_multipart_request', ['yield_upload_part_bodies']),
                           ('copies.CopySubmissionTask._submit_multipart_request', ['calculate_range_parameter', '_get_transfer_size'])):
         f = ctx.func(qn)
         adj = [c for c in own_calls(f.node) if (dotted(c.func) or '').endswith('adjust_chunksize')]
-        ok = len(adj) == 1 and norm(adj[0].args[0]) in ('config.multipart_chunksize', 'part_size') and 'meta.size' in norm(adj[0].args[1]) or (len(adj) == 1 and norm(adj[0].args[1]) == 'size')
-        if ok and norm(adj[0].args[0]) == 'part_size':
-            ok = any(norm(v) == 'config.multipart_chunksize' for _, v in q.local_defs(f, 'part_size') if isinstance(v, ast.AST))
+        ok = len(adj) == 1 and len(adj[0].args) == 2
+        if ok:
+            a0 = adj[0].args[0]
+            a0defs = [norm(v) for _, v in q.local_defs(f, a0.id) if isinstance(v, ast.AST)] if isinstance(a0, ast.Name) else [norm(a0)]
+            ok = 'config.multipart_chunksize' in a0defs and q.ntext(f, adj[0].args[1]) == 'transfer_future.meta.size'
         ctx.ob(f, 'adjust_chunksize(config.multipart_chunksize, size)', ok, 'the configured chunk size and the object size must be what gets adjusted')
         rv = adj[0]._parent.targets[0].id if adj and isinstance(adj[0]._parent, ast.Assign) else None
         gf = ctx.cfg(f)
@@ -315,7 +355,7 @@ def limits_are_s3s_and_applied(ctx):
                 after = bool(adj) and gf.all_dominate(gf.nodes_of(adj[0]), gf.nodes_of(c), gf.NORMAL)
                 ctx.ob(f, f'{cn}(...) uses the adjusted chunk size ({rv})', uses and after, 'parts must be planned with the adjusted size, otherwise > 10 000 parts or parts < 5 MiB are produced')
         if 'copies' in qn:
-            npd = [st for st, v in q.local_defs(f, 'num_parts')]
+            npd = [st for nm in _np_names(f)[:1] for st, v in q.local_defs(f, nm)]
             ctx.ob(f, 'num_parts computed after the adjustment', bool(adj) and bool(npd) and gf.all_dominate(gf.nodes_of(adj[0]), [x for st in npd for x in gf.nodes_of(st)], gf.NORMAL),
                    'the part count must follow the adjusted size')
     ad = [f for f, c, r in q.call_index(ctx) if r.kind == 'package' and any(t.qualname == 'utils.ChunksizeAdjuster.__init__' for t in r.targets) and (c.args or c.keywords)]
